@@ -1035,4 +1035,5 @@ func TestC02(t *testing.T) {
 	s := hx.Begin(t, "C02")
 	defer s.End()
 	hx.Run(s, c02Types, s.N(4000, 40000))
+	hx.Run(s, c02Prefixes, s.N(600, 6000))
 }
